@@ -98,6 +98,15 @@ def _conv(ctx, p, rng):
         if not ok:
             ctx.violation('base_and_dirs:roundtrip', {'D': D, 'P': P, 'shape': shp, 'vals': kind}); return
         ctx.ok('base_and_dirs', ('bd',) + cls, exact=True)
+        if kind == 'random' and D > 1:
+            # base point given as integers (ndarray of ints / nested list): the directions must survive unchanged
+            xi = rng.integers(-4, 5, size=shp)
+            for xarg, tag in ((xi, 'int-ndarray'), (xi.tolist(), 'int-list'), (xi.astype(np.float32), 'float32')):
+                u3 = U.base_and_dirs2utpm(xarg, V)
+                x3, V3 = U.utpm2base_and_dirs(u3)
+                if not (_same(V3, V) and np.array_equal(x3, np.asarray(xi, dtype=float))):
+                    ctx.violation('base_and_dirs:%s-base-point' % tag, {'D': D, 'P': P, 'shape': shp}); return
+                ctx.ok('base_and_dirs', ('bd', tag) + cls, exact=True)
     u = UTPM(data.copy())
     Vb = U.utpm2dirs(u)
     ok = Vb.shape == shp + (P, D)
@@ -132,7 +141,14 @@ def _conv(ctx, p, rng):
             for idx in np.ndindex(*cshape):
                 raw[idx] = _vals(rng, (D, P) + shp, kind)
                 elems[idx] = UTPM(raw[idx].copy())
+            # the container itself in other memory layouts (logical indexing must win over memory order)
+            elemsF = np.asfortranarray(elems)
+            elemsT = np.empty(cshape[::-1], dtype=object)
+            for idx in np.ndindex(*cshape):
+                elemsT[idx[::-1]] = elems[idx]
+            elemsT = elemsT.T
             for fn_name, fn, arg in (('as_utpm', UTPM.as_utpm, elems), ('as_utpm', UTPM.as_utpm, elems.tolist()),
+                                     ('as_utpm', UTPM.as_utpm, elemsF), ('as_utpm', UTPM.as_utpm, elemsT),
                                      ('ndarray2utpm', U.ndarray2utpm, elems)):
                 if fn_name == 'ndarray2utpm' and (len(cshape) != 1 or shp != ()):
                     ctx.skip('ndarray2utpm: only 1-D containers of scalar polynomials are accepted by the helper')
